@@ -11,6 +11,7 @@ trajectories): complete for affine instances (probes 0, e_1 … e_N determine (A
 probes for polynomial ones.  Independent oracle: the documented formula evaluated in plain Python;
 `objective_value` after a real solve against the formula on `extract_results()`.
 """
+import copy
 import math
 import warnings
 
@@ -120,7 +121,7 @@ def gen_case(rng, poly):
     algs = ["y0"]
     controls = ["u0"] + (["u1"] if rng.random() < 0.4 else [])
     cinputs = ["c0"]
-    params = ["p0", "p1"]
+    params = ["p0", "p1", "p2"]  # p2 occurs in the user functions only (never in the DAE)
     wsize = rng.choice([1, 1, 2])
     pathvars = [("w0", wsize)] if rng.random() < 0.6 else []
     extravars = [("e0", 1)] if rng.random() < 0.6 else []
@@ -131,7 +132,7 @@ def gen_case(rng, poly):
         eqs.append([(1.0, ("der(%s)" % x,)), (1.0, (params[j % 2], x)), (-1.0, (controls[j % len(controls)],)),
                     (-d(), ("c0",))])
     eqs.append([(1.0, ("y0",)), (-1.0, ("x0",)), (-1.0, ("p1",))])
-    pvals = gen_member_values(rng, E, 2, lambda: pick_val(rng))
+    pvals = gen_member_values(rng, E, 3, lambda: pick_val(rng))
     hist_pts = rng.choice([0, 0, 2])
     cin_times = [ts[0] - (hist_pts - j) * 0.5 for j in range(hist_pts)] + list(ts)
     cin = {"c0": gen_member_values(rng, E, len(cin_times), lambda: pick_val(rng))}
@@ -344,16 +345,24 @@ def wire_case(dt, uvs):
                 probs=[fr(p) for p in dt["probs"]], members=members, probes=probes)
 
 
-def run_case(c, dt, lines, pend):
+def run_case(c, dt, lines, pend, pr=None, s=None, before=None):
+    """`pr`: an instance that has been transcribed before with other data (`before`): the second
+    transcription must describe the CURRENT data"""
     rng = c.rng
     cls = syn_class(())
-    s = case_spec(dt)
-    r1 = call(lambda: Transcription(cls(spec=s)))
+    if pr is None:
+        s = case_spec(dt)
+        r1 = call(lambda: Transcription(cls(spec=s)))
+    else:
+        r1 = call(lambda: Transcription(pr))
+        c.hit("c06/second-transcription")
     r0 = call(lambda: Transcription(cls(spec=case_spec(dt, user=False))))
-    view = dict(stream="c06", case=dt)
+    view = dict(stream="c06" if pr is None else "c06-rerun", case=copy.deepcopy(dt) if pr is not None else dt)
+    if before is not None:
+        view["first_transcription_with"] = before
     kinds = sorted({b[0] for pc in dt["pcs"] for bb in pc["bnds"] for b in bb}
                    | {p[k][0] + "@pt" for lst in dt["pts"] for p in lst for k in ("lb", "ub")})
-    c.count(("c06", dt["E"], len(dt["ts"]), dt["poly"], tuple(kinds), len(dt["pcs"]),
+    c.count(("c06" if pr is None else "c06-rerun", dt["E"], len(dt["ts"]), dt["poly"], tuple(kinds), len(dt["pcs"]),
              tuple(len(x) for x in dt["pts"]), dt["pobj"] is not None, bool(dt["pathvars"]),
              bool(dt["extravars"]), bool(dt["extra_cin"])))
     c.programs += 1
@@ -437,6 +446,64 @@ def stream_main(c, N):
     for _ in range(N):
         dt = gen_case(c.rng, poly=c.rng.random() < 0.3)
         run_case(c, dt, lines, pend)
+    finish_model(c, lines, pend)
+
+
+def change_between_runs(rng, dt):
+    """new data for the SAME instance (in place: the problem object reads these lists): the parameter p2
+    (user functions only; the DAE functions are cached between runs by design, so DAE parameters are
+    left alone unless declared dynamic), constant inputs, probabilities"""
+    E = dt["E"]
+    before = dict(p2=[row[2] for row in dt["pvals"]], probs=list(dt["probs"]),
+                  cin={k: [list(v) for v in per] for k, per in dt["cin"].items()})
+    col = [row[2] for row in dt["pvals"]]
+    const = all(v == col[0] for v in col)
+    # the classification constant / per-member is kept: the cached DAE function takes the per-member
+    # parameters as an argument of fixed size, and a change of that size between two runs makes the second
+    # transcribe() fail with a CasADi dimension error (a crash, observed on the unchanged tree)
+    if const:
+        new = [rng.choice([v for v in [0.0, 1.0, 1.5, 2.0, -1.0, 3.25, 0.5] if v != col[0]])] * E
+    else:
+        shift = rng.choice([1.0, -0.5, 2.0])
+        new = [v + shift for v in col]
+    for m in range(E):
+        dt["pvals"][m][2] = new[m]
+    for name, per in dt["cin"].items():
+        if rng.random() < 0.5:
+            for m in range(E):
+                per[m][:] = [pick_val(rng) for _ in per[m]]
+    if rng.random() < 0.3:
+        for m in range(E):
+            dt["probs"][m] = rng.choice([0.125, 0.25, 0.5, 1.0, 0.375])
+    return before
+
+
+def stream_rerun(c, N):
+    """history dimension: transcribe() twice on one instance with a data change in between; the second
+    transcription is compared with the documented problem / the model at the NEW data"""
+    rng = c.rng
+    cls = syn_class(())
+    lines, pend = [], []
+    for _ in range(N):
+        dt = gen_case(rng, poly=rng.random() < 0.2)
+        # make p2 visible in the user functions of every instance
+        if dt["pobj"] is None:
+            dt["pobj"] = []
+        dt["pobj"] = list(dt["pobj"]) + [(rng.choice([1.0, -2.0, 0.5]), ("p2", "x0")), (1.0, ("p2",))]
+        if dt["pcs"]:
+            dt["pcs"][0]["exprs"][0] = list(dt["pcs"][0]["exprs"][0]) + [(rng.choice([1.0, -1.0]), ("p2",))]
+        if rng.random() < 0.6:  # the seeded case: constant across the ensemble in the first run
+            v = pick_val(rng)
+            for m in range(dt["E"]):
+                dt["pvals"][m][2] = v
+        s = case_spec(dt)
+        pr = cls(spec=s)
+        r = call(lambda: Transcription(pr))
+        if r[0] == "raise":
+            c.fail("transcribe raised on a valid instance: " + r[1], dict(stream="c06-rerun", case=dt))
+            continue
+        before = change_between_runs(rng, dt)
+        run_case(c, dt, lines, pend, pr=pr, s=s, before=before)
     finish_model(c, lines, pend)
 
 
@@ -568,7 +635,9 @@ def run(c):
         "coincidences/0/1, path variable (size 1-2), extra variable, nominals, theta in {1, 0.5}; random affine "
         "(70%) / polynomial objective, path objective, 0-3 path constraints (size 1-2; scalar, +-inf, vector, "
         "one-element vector, 1-D / 2-D Timeseries on own stamps -> fills; member specific) and 0-3 point "
-        "constraints per member (size 1-3); distinct = (E, n, poly, bound kinds, #constraints, variable kinds)"
+        "constraints per member (size 1-3); re-run stream: transcribe() twice on one instance with a change of a "
+        "user-function parameter (constant across the ensemble or not), constant inputs and probabilities in "
+        "between, second transcription compared at the new data; distinct = (E, n, poly, bound kinds, #constraints, variable kinds)"
     )
     c.assumptions = [
         "CasADi evaluates Function/map/substitute/jacobian as documented; IPOPT returns the objective at its point",
@@ -584,6 +653,7 @@ def run(c):
     stream_malformed(c)
     probe_f6(c)
     stream_main(c, c.n(120, 2500))
+    stream_rerun(c, c.n(40, 500))
     with warnings.catch_warnings():
         warnings.simplefilter("ignore")
         stream_solve(c, c.n(8, 80))
